@@ -867,6 +867,9 @@ func cmdCheck(args []string) int {
 			code = 0
 			if ee, ok := err2.(*exec.ExitError); ok {
 				code = ee.ExitCode()
+			} else if err2 != nil {
+				fmt.Fprintf(os.Stderr, "check: cannot run the replay: %v\n", err2)
+				return 2
 			}
 			if code != 1 {
 				fmt.Fprintf(os.Stderr, "check: violation %s does not replay in a fresh process (exit %d); withheld\n", sig, code)
